@@ -17,7 +17,7 @@ func init() {
 			"distinct = distinct (ceil(x4), ceil(2*x4), x4 integer?, hot, x2 sign); non-trivial = some rainfall",
 		Assumptions: []string{
 			"reference = own transcription of Perrin et al. (2003) / airGR: S-curves with exponent 5/2, time bases x4 and 2*x4, ordinates by differencing at integer t, 90/10 split, exchange x2*(R/x3)^3.5, Qd=max(0,Q1+F)",
-			"tolerance 1e-9 relative + 1e-12 absolute",
+			"tolerance 1e-9 relative + 1e-12 absolute + 1e4 x the drift of a reference twin whose rainfall is larger by one part in 1e15 (the equations' own amplification of round-off; zero for practical purposes except in stiff regimes over thousands of steps)",
 			"the state vector is read in the order the model's spec declares: s, r, n1, n2, q1[n2], q9[n1]",
 			"hot initial stores are final states of a previous run of the same parameter set (any non-negative S<=x1, R, and unit-hydrograph stores)",
 		},
@@ -104,8 +104,25 @@ func c15Run(c *core.Ctx, long bool) {
 	q := out.Out[0][0]
 	anyRain := false
 	worst := 0.0
+	// two correct implementations that order their floating-point operations differently drift apart slowly over
+	// thousands of steps (a small routing store amplifies last-bit differences): 1.2e-9 was seen after 1279 steps
+	tolRel := 1e-9
+	// ... so the published equations' own sensitivity is measured alongside: a twin of the reference whose rainfall is
+	// one part in 1e15 larger. Where the equations amplify that perturbation (a small routing store with a strongly
+	// negative exchange coefficient does, by orders of magnitude within a few dozen steps), no implementation can be
+	// expected to stay closer to the reference than a generous multiple of what the twin has drifted by so far.
+	twin := newGR4JRef(x1, x2, x3, x4)
+	twin.S, twin.R = ref.S, ref.R
+	copy(twin.st1, ref.st1)
+	copy(twin.st9, ref.st9)
+	drift := 0.0
 	for t := 0; t < T; t++ {
+		wt, _ := twin.step(rain[t]*(1+1e-15), pet[t])
 		want, _ := ref.step(rain[t], pet[t])
+		drift = math.Max(drift, math.Abs(wt-want))
+		if drift > 1e-12*math.Max(math.Abs(want), 1e-6) {
+			c.Count("steps_where_the_equations_amplify_a_1e-15_perturbation", 1)
+		}
 		if rain[t] > 0 {
 			anyRain = true
 		}
@@ -113,7 +130,7 @@ func c15Run(c *core.Ctx, long bool) {
 		if want != 0 {
 			worst = math.Max(worst, d/math.Abs(want))
 		}
-		if !core.RelClose(q[t], want, 1e-9, 1e-12) {
+		if !core.RelClose(q[t], want, tolRel, 1e-12+1e4*drift) {
 			c.Violate("runoff-differs", "GR4J", fmt.Sprintf("t=%d: runoff %v, published equations give %v (x1=%v x2=%v x3=%v x4=%v, n1=%d n2=%d)", t, q[t], want, x1, x2, x3, x4, n1, n2), "x4class", x4Class(x4))
 			break
 		}
@@ -123,26 +140,33 @@ func c15Run(c *core.Ctx, long bool) {
 		c.Trivial()
 	}
 	c.Count("steps_compared", float64(T))
+	driftStores := math.Max(drift, math.Max(math.Abs(twin.S-ref.S), math.Abs(twin.R-ref.R)))
+	for i := range ref.st1 {
+		driftStores = math.Max(driftStores, math.Abs(twin.st1[i]-ref.st1[i]))
+	}
+	for i := range ref.st9 {
+		driftStores = math.Max(driftStores, math.Abs(twin.st9[i]-ref.st9[i]))
+	}
 	st := out.States[0]
 	if len(st) != 4+n1+n2 {
 		c.Violate("state-layout", "GR4J", fmt.Sprintf("final state vector has %d entries, expected %d", len(st), 4+n1+n2))
 		return
 	}
 	if len(c.Res.Violations) == 0 {
-		if !core.RelClose(st[0], ref.S, 1e-9, 1e-12) {
+		if !core.RelClose(st[0], ref.S, tolRel, 1e-12+1e4*driftStores) {
 			c.Violate("store-differs", "GR4J", fmt.Sprintf("final production store %v, reference %v", st[0], ref.S))
 		}
-		if !core.RelClose(st[1], ref.R, 1e-9, 1e-12) {
+		if !core.RelClose(st[1], ref.R, tolRel, 1e-12+1e4*driftStores) {
 			c.Violate("store-differs", "GR4J", fmt.Sprintf("final routing store %v, reference %v", st[1], ref.R))
 		}
 		for i := 0; i < n2; i++ {
-			if !core.RelClose(st[4+i], ref.st1[i], 1e-9, 1e-12) {
+			if !core.RelClose(st[4+i], ref.st1[i], tolRel, 1e-12+1e4*driftStores) {
 				c.Violate("uh-store-differs", "GR4J", fmt.Sprintf("final UH2 store[%d] %v, reference %v (x4=%v)", i, st[4+i], ref.st1[i], x4), "x4class", x4Class(x4))
 				break
 			}
 		}
 		for i := 0; i < n1; i++ {
-			if !core.RelClose(st[4+n2+i], ref.st9[i], 1e-9, 1e-12) {
+			if !core.RelClose(st[4+n2+i], ref.st9[i], tolRel, 1e-12+1e4*driftStores) {
 				c.Violate("uh-store-differs", "GR4J", fmt.Sprintf("final UH1 store[%d] %v, reference %v (x4=%v)", i, st[4+n2+i], ref.st9[i], x4), "x4class", x4Class(x4))
 				break
 			}
